@@ -271,6 +271,10 @@ def body(rec, c):
                 rec.check(False, f"config:valid-configuration-raises:{res['error'][0]}", f"{res['error'][1]} {info}")
             rec.cls("cfg:valid-by-the-statement-but-rejected(allowed)")
             return
+        if c["quantis"] and c["ens_engs"] is None and res.get("ens_engs"):
+            # QuanTIS without an explicit layout: [0-] runs on its own engine section (engine0), all other ensembles on `engine`
+            rec.cls("cfg:quantis-default-layout")
+            rec.check(res["ens_engs"][0] == ["engine0"] and all(e == ["engine"] for e in res["ens_engs"][1:]), "config:quantis-default-engine-layout", f"{res['ens_engs']} {info}")
         if c["ens_engs"] is not None:
             # an explicit engine layout is what the ensembles are initialised with
             rec.cls("cfg:explicit-engine-layout")
